@@ -90,6 +90,12 @@ CHECKS = [
              "free of exponential ambiguity and of ambiguity degree <= 4; every validator/parser body satisfies a syntactic linear-cost contract.",
      "note": _NOTE + "; A7 (cost model of a backtracking matcher: O(n^(d+1)) for ambiguity degree d); wall-clock time is not proved"},
 ]
+CHECKS.append(
+    {"id": "C20", "technique": "contract-based deductive verification: pyvc VCs/SMT on the real Compose.__init__, _find_metadata_file, _load_metadata and the four cached accessors over a ghost file system (exists/listdir) with load() used through an abstract contract",
+     "text": "Compose.__init__ is executed symbolically over an uninterpreted exists() predicate and a symbolic directory listing: compose/ is chosen iff its composeinfo.json exists, "
+             "else some listed subdirectory with metadata/, else the path itself. Each accessor is proved to load the first existing candidate (current name before legacy name) into an "
+             "instance of the right class, once, and to return the same object afterwards; no candidate or a ValueError from load surfaces as RuntimeError, other errors propagate.",
+     "note": _NOTE + "; A4 (os.path.join/exists/listdir); proved for local absolute paths and listings of 0-2 entries (bounded in number); real directory layouts enumerated natively (bounded)"})
 _PENDING = "check not built yet in this round (planned, DESIGN.md section 8); listed here only so that the manifest stays valid while the framework is being built"
 NOT_APPLICABLE = [{"property_id": "C%02d" % i, "reason": _PENDING} for i in range(1, 21) if "C%02d" % i not in [c["id"] for c in CHECKS]]
 for _e in ENGINES:
